@@ -78,6 +78,15 @@ def build_processors(
     return processors
 
 
+def _target_indexers(fit_range: FitRange2D | FitRange3D) -> dict[str, slice]:
+    """Get the indexers for the target data, its time dimension is 'readout_time'."""
+    indexers: dict[str, slice] = dict(fit_range.to_dict())
+    if "time" in indexers:
+        indexers["readout_time"] = indexers.pop("time")
+
+    return indexers
+
+
 class ModelFittingDataTree(ProblemSingleObjective):
     """Pygmo problem class to fit data with any model in Pyxel."""
 
@@ -211,7 +220,9 @@ class ModelFittingDataTree(ProblemSingleObjective):
                 weights_from_file=weights_from_file,
             )
 
-            self.all_target_data = targets.isel(indexers=target_fit_range.to_dict())
+            self.all_target_data = targets.isel(
+                indexers=_target_indexers(target_fit_range)
+            )
             self.target_full_scale = targets
 
     def get_bounds(self) -> tuple[Sequence[float], Sequence[float]]:
@@ -251,7 +262,7 @@ class ModelFittingDataTree(ProblemSingleObjective):
                 )
 
             self.weighting_from_file = weights_data_array.isel(
-                indexers=self.targ_fit_range.to_dict()
+                indexers=_target_indexers(self.targ_fit_range)
             )
 
         elif weights is not None:
